@@ -322,12 +322,12 @@ func pruneConstBranches(fn *ssa.Function) {
 		if !ok {
 			continue
 		}
-		c, ok := ifi.Cond.(*ssa.Const)
-		if !ok || c.Value == nil || c.Value.Kind() != constant.Bool {
+		val, known := constCond(ifi.Cond)
+		if !known {
 			continue
 		}
 		taken, other := b.Succs[0], b.Succs[1]
-		if !constant.BoolVal(c.Value) {
+		if !val {
 			taken, other = other, taken
 		}
 		removePred(other, b)
@@ -402,4 +402,36 @@ func pruneConstBranches(fn *ssa.Function) {
 		b.Index = i
 	}
 	fn.Blocks = kept
+}
+
+// constCond: the branch condition is a constant — a literal, its negation, or
+// a comparison of two constants (a platform constant such as the path
+// separator against a literal: one platform's branch is dead code on the
+// other).
+func constCond(v ssa.Value) (val, known bool) {
+	switch x := v.(type) {
+	case *ssa.Const:
+		if x.Value != nil && x.Value.Kind() == constant.Bool {
+			return constant.BoolVal(x.Value), true
+		}
+	case *ssa.UnOp:
+		if x.Op == token.NOT {
+			if r, ok := constCond(x.X); ok {
+				return !r, true
+			}
+		}
+	case *ssa.BinOp:
+		a, ok1 := x.X.(*ssa.Const)
+		b, ok2 := x.Y.(*ssa.Const)
+		if !ok1 || !ok2 || a.Value == nil || b.Value == nil || a.Value.Kind() != b.Value.Kind() {
+			return false, false
+		}
+		switch x.Op {
+		case token.EQL, token.NEQ, token.LSS, token.LEQ, token.GTR, token.GEQ:
+			if a.Value.Kind() == constant.String || a.Value.Kind() == constant.Int {
+				return constant.Compare(a.Value, x.Op, b.Value), true
+			}
+		}
+	}
+	return false, false
 }
